@@ -1,7 +1,23 @@
 (* C01 — Cascade walk: each live parent exactly once, only after all its live children.
-   (theorems being added; see Proofs/WalkParP.v) *)
-From Coq Require Import List Arith Bool.
+
+   Serial walk: Model/Reducer.v (walk_serial), proofs in Proofs/CountsP.v.
+   Parallel walk: Model/WalkPar.v — dispatcher, unbounded ready queue, done queue
+   bounded by 2*par, readiness table, par worker processes, over the
+   multiprocessing.Queue model of VisitPar.v.  A schedule is an arbitrary list of
+   actions; actions that are not enabled are no-ops, so every theorem below holds
+   for every interleaving of dispatcher, feeder flushes, worker receives, receive
+   timeouts (only on an empty pipe), callbacks (one sync point between start and
+   end) and the shutdown signal, for every well-formed pyramid (generic / TOAST /
+   filtered, any sub-pyramid apex), every worker count par >= 1 and every pipe
+   capacity pcap >= 1.  [spec_ops P] = the live non-leaf tiles of the sub-pyramid.
+   The callback log [cblog] is newest first: (false, p, w) = worker w starts the
+   callback of p, (true, p, w) = it returns.  [starts]/[ends] (Proofs/WalkParAux.v)
+   are the positions of the Start/End events of a log.
+   Statements only; proofs in Proofs/WalkParPrep.v (preparation pass),
+   Proofs/WalkParInv.v (LTS invariant), Proofs/WalkParP.v (instantiation). *)
+From Coq Require Import List NArith Arith Bool Permutation.
 From Toasty Require Import Model.Quadtree Model.Reducer Model.WalkPar Proofs.ReducerP Proofs.CountsP.
+From Toasty Require Import Proofs.WalkParAux Proofs.WalkParInv Proofs.WalkParP.
 Import ListNotations.
 
 (* serial walk: callbacks are exactly the live non-leaf tiles of the sub-pyramid,
@@ -9,3 +25,147 @@ Import ListNotations.
 Theorem walk_serial_spec : forall P, wf_pyr P -> walk_serial P = Some (spec_ops P).
 Proof. exact CountsP.walk_serial_spec. Qed.
 Print Assumptions walk_serial_spec.
+
+(* what is in spec_ops: accepted by the filter, inside the apex's subtree, never a leaf *)
+Theorem walk_ops_scope : forall P q, wf_pyr P -> In q (spec_ops P) ->
+  in_filter P q = true /\ below q (apex P) = true /\ (pn (apex P) <= pn q < depth P)%nat.
+Proof. exact CountsP.spec_ops_scope. Qed.
+Print Assumptions walk_ops_scope.
+
+(* every reachable state of the parallel walk: a callback starts only for a live
+   non-leaf tile of the sub-pyramid; at most one Start and one End per tile; every
+   End is preceded by its Start; and when the callback of p starts, the callback of
+   every child of p that is itself an operation has already returned *)
+Theorem walk_par_safety :
+  forall P par pcap, wf_pyr P -> 1 <= par -> 1 <= pcap ->
+  forall s0, winit P par pcap = Some s0 ->
+  forall l : list wact,
+  let s := wrun (fun _ => false) s0 l in
+  (forall p w, In (false, p, w) (cblog s) -> In p (spec_ops P)) /\
+  NoDup (starts (cblog s)) /\ NoDup (ends (cblog s)) /\
+  (forall l1 p w l2, cblog s = l1 ++ (true, p, w) :: l2 -> exists w', In (false, p, w') l2) /\
+  (forall l1 p w l2, cblog s = l1 ++ (false, p, w) :: l2 ->
+     forall c, In c (children p) -> In c (spec_ops P) -> exists w', In (true, c, w') l2).
+Proof. exact WalkParP.walk_par_safety. Qed.
+Print Assumptions walk_par_safety.
+
+(* whenever the walk has returned: the callback started and returned exactly once
+   for every element of spec_ops P and for nothing else, and every worker has left
+   its loop normally (exit code 0) *)
+Theorem walk_par_terminal :
+  forall P par pcap, wf_pyr P -> 1 <= par -> 1 <= pcap ->
+  forall s0, winit P par pcap = Some s0 ->
+  forall l : list wact,
+  let s := wrun (fun _ => false) s0 l in
+  d_pc s = DReturned ->
+  Permutation (starts (cblog s)) (spec_ops P) /\
+  Permutation (ends (cblog s)) (spec_ops P) /\
+  (forall w x, nth_error (wks s) w = Some x -> fst x = KExited 0) /\
+  (spec_ops P <> [] -> length (wks s) = par).
+Proof. exact WalkParP.walk_par_terminal. Qed.
+Print Assumptions walk_par_terminal.
+
+(* nothing to do: the walk returns at once, starts no worker, runs no callback *)
+Theorem walk_par_immediate :
+  forall P par pcap, wf_pyr P -> 1 <= par -> 1 <= pcap ->
+  forall s0, winit P par pcap = Some s0 ->
+  spec_ops P = [] ->
+  d_pc s0 = DReturned /\ wks s0 = [] /\ forall l, wrun (fun _ => false) s0 l = s0.
+Proof. exact WalkParP.walk_par_immediate. Qed.
+Print Assumptions walk_par_immediate.
+
+(* parallel = serial: in a returned state the callback positions are a permutation
+   of the serial walk's callback list, for every par and every schedule *)
+Theorem walk_par_eq_serial :
+  forall P par pcap, wf_pyr P -> 1 <= par -> 1 <= pcap ->
+  forall s0, winit P par pcap = Some s0 ->
+  forall l : list wact,
+  let s := wrun (fun _ => false) s0 l in
+  d_pc s = DReturned ->
+  exists cbs, walk_serial P = Some cbs /\
+    Permutation (starts (cblog s)) cbs /\ Permutation (ends (cblog s)) cbs /\
+    (forall p, (exists w, In (true, p, w) (cblog s)) <-> In p cbs).
+Proof. exact WalkParP.walk_par_eq_serial. Qed.
+Print Assumptions walk_par_eq_serial.
+
+(* pos_parent is never called on a level-0 position: no exception escapes the dispatcher *)
+Theorem walk_par_never_raises :
+  forall P par pcap, wf_pyr P -> 1 <= par -> 1 <= pcap ->
+  forall s0, winit P par pcap = Some s0 ->
+  forall l : list wact, d_pc (wrun (fun _ => false) s0 l) <> DRaised.
+Proof. exact WalkParP.walk_par_never_raises. Qed.
+Print Assumptions walk_par_never_raises.
+
+(* no deadlock: in every reachable state that has not returned, a non-polling
+   action is enabled, possibly after ONE polling move (worker 0's flag test that
+   sends it back to the blocking get); see WalkParInv.can_progress *)
+Theorem walk_par_no_deadlock :
+  forall P par pcap, wf_pyr P -> 1 <= par -> 1 <= pcap ->
+  forall s0, winit P par pcap = Some s0 ->
+  forall l : list wact,
+  let s := wrun (fun _ => false) s0 l in
+  d_pc s <> DReturned ->
+  (exists a, wenabled s a = true /\ wpolling s a = false) \/
+  (exists a0 a1, wenabled s a0 = true /\ wpolling s a0 = true /\
+                 wenabled (wstep (fun _ => false) s a0) a1 = true /\
+                 wpolling (wstep (fun _ => false) s a0) a1 = false).
+Proof. exact WalkParP.walk_par_no_deadlock. Qed.
+Print Assumptions walk_par_no_deadlock.
+
+(* bounded progress: every enabled non-polling action strictly decreases a
+   natural-number measure, so a run contains at most [measure _ par s0] of them;
+   with walk_par_no_deadlock: every schedule that does not poll forever while
+   progress is possible reaches DReturned *)
+Theorem walk_par_measure :
+  forall P par pcap, wf_pyr P -> 1 <= par -> 1 <= pcap ->
+  forall s0, winit P par pcap = Some s0 ->
+  forall (l : list wact) a,
+  let s := wrun (fun _ => false) s0 l in
+  wenabled s a = true -> wpolling s a = false ->
+  measure (spec_ops P) par (wstep (fun _ => false) s a) < measure (spec_ops P) par s.
+Proof. exact WalkParP.walk_par_measure. Qed.
+Print Assumptions walk_par_measure.
+
+(* ---- non-vacuity ------------------------------------------------------------------ *)
+
+(* a filtered depth-3 TOAST pyramid (CountsP.ex_full: one accepted tile without
+   accepted children, one accepted tile below a rejected one), two workers, pipe
+   capacity 1: an interleaved schedule that reaches DReturned; the two seeds run
+   concurrently on different workers, the parents afterwards *)
+Definition c01_schedule : list wact :=
+  [DPut; DPut; FFlushReady; KRecv 0; FFlushReady; KRecv 1; KCb 1; KCb 0; KPut 1; KPut 0;
+   FFlushDone 1; DRecv; FFlushDone 0; DRecv; DPut; KTimeout 1; FFlushReady; KIsSet 1; KRecv 1;
+   KCb 1; KPut 1; FFlushDone 1; DRecv; DPut; FFlushReady; KRecv 0; KCb 0; KPut 0; FFlushDone 0;
+   DRecv; DCloseQ; FFeederExit; DJoinThread; DSetFlag; KTimeout 1; KIsSet 1; KExit 1;
+   KTimeout 0; KIsSet 0; KExit 0; DJoinW 0; DJoinW 1].
+
+Example walk_par_nonvacuous :
+  wf_pyr ex_full /\
+  spec_ops ex_full = [mkPos 2 0%N 0%N; mkPos 2 1%N 1%N; mkPos 1 0%N 0%N; mkPos 0 0%N 0%N] /\
+  exists s0, winit ex_full 2 1 = Some s0 /\
+    let s := wrun (fun _ => false) s0 c01_schedule in
+    d_pc s = DReturned /\
+    rev (cblog s) =
+      [(false, mkPos 2 0%N 0%N, 0); (false, mkPos 2 1%N 1%N, 1); (true, mkPos 2 1%N 1%N, 1); (true, mkPos 2 0%N 0%N, 0);
+       (false, mkPos 1 0%N 0%N, 1); (true, mkPos 1 0%N 0%N, 1); (false, mkPos 0 0%N 0%N, 0); (true, mkPos 0 0%N 0%N, 0)] /\
+    wks s = [(KExited 0, true); (KExited 0, true)].
+Proof.
+  split; [repeat split; try reflexivity; cbn; auto|]. split; [vm_compute; reflexivity|].
+  eexists. split; [vm_compute; reflexivity|]. vm_compute. auto.
+Qed.
+
+(* a sub-pyramid disjoint from the filter: nothing to do, immediate return *)
+Example walk_par_nothing_to_do :
+  wf_pyr ex_sub_disjoint /\ spec_ops ex_sub_disjoint = [] /\
+  option_map d_pc (winit ex_sub_disjoint 2 1) = Some DReturned.
+Proof. split; [repeat split; try reflexivity; cbn; auto; discriminate|]. split; vm_compute; reflexivity. Qed.
+
+(* the polling prefix of walk_par_no_deadlock is needed: a worker that timed out
+   before the first item was flushed sits at its flag test; the only other enabled
+   action is the dispatcher's own timeout *)
+Example walk_par_polling_needed :
+  exists s0, winit ex_generic_sub 1 1 = Some s0 /\
+    let s := wrun (fun _ => false) s0 [DPut; KTimeout 0; FFlushReady] in
+    wenabled_list s = [DTimeout; KIsSet 0] /\ wpolling s DTimeout = true /\ wpolling s (KIsSet 0) = true /\
+    wenabled (wstep (fun _ => false) s (KIsSet 0)) (KRecv 0) = true.
+Proof. eexists. split; [vm_compute; reflexivity|]. vm_compute. auto. Qed.
